@@ -134,12 +134,13 @@ def check_signif(case):
         if (not toward_plus) and frr > fx + e:
             raise Violation('%s(%r,%r) = %r lies above the number' % (name, x, s, r), r, None)
     if s == 1 or s == 1.0:
+        # the significance left out is the significance 1 (the default of the function and of Excel's CEILING.MATH/FLOOR.MATH), for either sign of the number
         r = number_result('CEILING(%s)' % X, env)
-        if r != math.ceil(fx) and x >= 0:
-            raise Violation('CEILING(%r) = %r' % (x, r), r, math.ceil(fx))
+        if r != math.ceil(fx):
+            raise Violation('CEILING(%r) = %r with the significance left out; CEILING(%r,1) is %r' % (x, r, x, math.ceil(fx)), r, math.ceil(fx))
         r = number_result('FLOOR(%s)' % X, env)
-        if r != math.floor(fx) and x >= 0:
-            raise Violation('FLOOR(%r) = %r' % (x, r), r, math.floor(fx))
+        if r != math.floor(fx):
+            raise Violation('FLOOR(%r) = %r with the significance left out; FLOOR(%r,1) is %r' % (x, r, x, math.floor(fx)), r, math.floor(fx))
 
 
 def check_int_family(case):
